@@ -60,9 +60,11 @@ CHECKS["C20"] = ("writer/reader pairing analysis (PAIRIO) over molgri/io.py and 
 CHECKS["C14"] = ("label-flow analysis (FLOW) across getters, saved files, Snakefile rule outputs/inputs (rules.X.output.Y resolved by the front end), loaders and SQRA keyword arguments; config-key-to-grid-role tracing at every FullGrid construction; transpose parity and order/pairing rules on DecompositionTool; inherited FOLD/TRUTH rules, inherited SQRA kernel obligations (C01, coo form) and position-grid symmetry obligations (C05)",
     "Wiring (borders->S, distances->h, volumes->V; config keys -> grid roles), one assembly routine for S and h, left eigenvectors via one transpose, descending sort applied to eigenvalues and eigenvector columns alike, decomposition rule wiring, folded rotation block (F1). ARPACK convergence/accuracy is not decided.", "6 C14")
 
+CHECKS["C07"] = ("structural rules over the grid generators: requested row count per source, canonical-half selection and [:N] prefix with availability error (shared OWN/ORD rules), symbolic derivation of the double cover [G; -G], exact-negation and one-row-per-row rules on the hemisphere normalisation, constants of the one-point grids",
+    "Structural clauses only: every generator requests exactly N rows; rotation rows are selected from / normalised to the canonical half with one row out per row in; the double cover is the N rows followed by their exact negatives in the same order; the N-point polytope rotation grid is the index-ordered prefix with an explicit error when fewer rows exist; one-point grids are the z direction and the identity. Pairwise distinctness, minimum separation and unit norm of computed coordinates are numerical and not decided.", "12.7")
+
 NOT_APPLICABLE = {
     "C06": "Cartesian Voronoi cell geometry is produced by qhull and floating-point predicates (polygon vertex ordering, F2); no static abstract domain in reach separates the failing coordinate configurations; the one structural clause is too thin to claim the property (DESIGN.md section 6, C06).",
-    "C07": "distinctness/separation/hemisphere membership of computed coordinates are numerical facts; the row-count and unit-norm clauses are already run-time assertions, so a static restatement would only test the presence of those asserts (DESIGN.md section 6, C07).",
 }
 
 
